@@ -191,3 +191,26 @@ Proof.
     + eapply (s_add_append _ 1%nat); reflexivity.
   - vm_compute. repeat split.
 Qed.
+
+(* ---- hardening: waiting Gets and the containsDuplicate helper ---- *)
+
+(* the harness observes k Gets that wait while an Add/Proposed happens; in the model that is
+   [gets k], which is nothing but k further Get operations of the run (so all statements above
+   apply to the batches it returns) *)
+Theorem C15_gets_of_run : forall bs ops k,
+  let t' := run bs (ops ++ repeat OGet k) in
+  fst (gets k (t_state (run bs ops))) = t_state t' /\
+  t_out t' = t_out (run bs ops) ++ snd (gets k (t_state (run bs ops))) /\
+  t_acc t' = t_acc (run bs ops).
+Proof. exact gets_of_run. Qed.
+Print Assumptions C15_gets_of_run.
+
+Theorem C15_contains_dup_spec : forall st b,
+  contains_dup st b = true <-> exists c, In c b /\ cmd_seq c <= seq_of (seqs st) (cmd_client c).
+Proof. exact contains_dup_spec. Qed.
+Print Assumptions C15_contains_dup_spec.
+
+Example C15_gets_example :
+  gets 3 (t_state (run 1 [OAdd (1,1,0); OAdd (65537,1,0); OProposed [(1,1,0)]; OAdd (1,2,0)]))
+  = (mkState 1 [(1,1)] [] false, [[(65537,1,0)]; [(1,2,0)]]).
+Proof. vm_compute. reflexivity. Qed.
